@@ -109,7 +109,8 @@ class World:
         else:
             self.cond = margin.MarginLoanConditions(
                 interest_symbol="USD", interest_percentage=Decimal("7"), interest_period=DAY,
-                min_interest=Decimal(min_interest), margin_requirement=Decimal(margin_req))
+                min_interest=Decimal(min_interest),
+                margin_requirement=margin_req if isinstance(margin_req, Decimal) else Decimal(margin_req))
             if lend == "margin_base_only":
                 # lending conditions exist for the base symbols only: borrowing the quote symbol fails with a plain
                 # Error (not NotEnoughBalance) - a rejection coming from a different internal step
@@ -118,7 +119,7 @@ class World:
                     ls.set_conditions(p_.base_symbol, self.cond)
             else:
                 ls = margin.MarginLoans("USD", default_conditions=self.cond)
-        self.margin_req = Decimal(margin_req)
+        self.margin_req = margin_req if isinstance(margin_req, Decimal) else Decimal(margin_req)
         self.e = bex.Exchange(self.d, dict(self.init), liquidity_strategy_factory=lf, fee_strategy=fs,
                               default_pair_info=PairInfo(bp, qp), lending_strategy=ls)
         for s in self.symbols:
